@@ -134,6 +134,20 @@ class World:
                     if v == 13 and not isinstance(v, bool):
                         raise ValueError("boom-argument")        # a plain Python exception, not a library error
                     return v
+        if "Cs" in self.types:
+            @t.Scalar("Cs", schema_name=sn)
+            class Cs:
+                """output: the blank string becomes null, any other text is prefixed (GQL!OutC)"""
+                def coerce_output(self, v):
+                    if not isinstance(v, str):
+                        raise TypeError("Cs cannot represent %r" % (v,))
+                    return None if v == "" else "cs:" + v
+
+                def coerce_input(self, v):
+                    return v
+
+                def parse_literal(self, ast):
+                    return getattr(ast, "value", None)
         if "type" in trs:
             t.TypeResolver("P", schema_name=sn)(type_type_resolver)
         if cfg.get("hooks"):
